@@ -20,6 +20,23 @@ func init() {
 	// crc.spec b -> the same real call; modelexec answers this op from the textbook register of
 	// Spec/Crc32.v, so the real code is compared with the specification directly
 	register("crc.spec", func(a []Val) Val { return VB(gots.ComputeCRC(a[0].B)) })
+	register("crc.tab", func(a []Val) Val { return VB(gots.ComputeCRC(a[0].B)) })
+	register("crc.singles", func(a []Val) Val {
+		L := a[0].Int()
+		if L < 0 || L > 4096 {
+			return VBad()
+		}
+		out := make([]byte, 0, 32*L)
+		buf := make([]byte, L)
+		for i := 0; i < L; i++ {
+			for j := 0; j < 8; j++ {
+				buf[i] = 0x80 >> uint(j)
+				out = append(out, gots.ComputeCRC(buf)...)
+			}
+			buf[i] = 0
+		}
+		return VB(out)
+	})
 	register("crc.residue", func(a []Val) Val {
 		in := append([]byte{}, a[0].B...)
 		c := gots.ComputeCRC(in)
